@@ -45,7 +45,12 @@ pub fn run_measure(case: &Value) -> Value {
             let draws = vfs(&case["draws"]);
             quant_iron::verif_hooks::clear_draws();
             quant_iron::verif_hooks::push_draws(&draws);
-            let r = st.measure_n(b, &qs, vu(&case["shots"]));
+            // optional "pool": inside a rayon pool of that size (the number of results must not depend on the worker count)
+            let shots = vu(&case["shots"]);
+            let r = match case.get("pool").map(vu) {
+                Some(p) => rayon::ThreadPoolBuilder::new().num_threads(p).build().unwrap().install(|| st.measure_n(b, &qs, shots)),
+                None => st.measure_n(b, &qs, shots),
+            };
             let left = quant_iron::verif_hooks::pending_draws();
             quant_iron::verif_hooks::clear_draws();
             match r {
